@@ -144,6 +144,7 @@ def model(lines, drop, offset_s):
             if open_idx is not None:
                 caps[open_idx]['end'] = when
                 caps[open_idx]['by'] = 'eoc'
+                caps[open_idx]['end_frame'] = word_frame[ev[1]]
                 open_idx = None
             groups = E.rows_to_captions(ev[2]) if ev[2] else []
             if groups:
@@ -158,7 +159,9 @@ def model(lines, drop, offset_s):
                 open_idx = None
     gaps = []
     for a, b in zip(caps, caps[1:]):
-        if a['by'] == 'edm':
+        # the gap rule holds whatever took the caption off the screen: an EDM, or an EOC that shows nothing
+        # (for an EOC that shows the next caption the gap is zero)
+        if a['by'] in ('edm', 'eoc') and b['frame'] > a['end_frame']:
             g = b['frame'] - a['end_frame']
             gaps.append(g)
             if g <= 4:
